@@ -23,6 +23,11 @@ def run(chk):
                 lines.append(f"(val {cid} {op} {a} {b})")
                 meta[cid] = (op, i, j)
             n += 1
+    for k, (x, y) in enumerate(values.NEAR):
+        for op in ("equals", "compare"):
+            lines.append(f"(val n{op[0]}{k}a {op} {values.num(x)} {values.num(y)})")
+            lines.append(f"(val n{op[0]}{k}b {op} {values.num(y)} {values.num(x)})")
+            lines.append(f"(val n{op[0]}{k}s {op} {values.s(repr(x))} {values.num(y)})")
     for i, a in enumerate(U):
         lines.append(f"(val t{i} truthy {a})")
         for k in (1, 2, 3, -1, -2, 7):
